@@ -30,7 +30,9 @@ RULE = (
 RULE += (
     " Every round also runs a 'redirty' phase: each thread dirties the shared deduplication key three times "
     "with yields in between, while the other threads have the same call in flight; its second request must "
-    "return its own in-flight task and its body runs exactly three times."
+    "return its own in-flight task and its body runs exactly three times. Every round also runs a computation "
+    "that abandons a scheduled batch (a task failed by a NonAsyncContext while blocked, its batch of lower "
+    "priority than what its parent still needs) followed, on the same scheduler, by an ordinary one."
 )
 ASSUMPTIONS = [
     "OS thread interleavings are sampled (tiny switch interval, injected yields, repetition), not enumerated",
